@@ -187,12 +187,16 @@ def arr_index(seg, n, for_insert):
     if s == "-":
         if for_insert:
             return n
+        if "array-index" in OPEN_ON:
+            raise PatchError("array-index: '-' is the element after the last one (rfc6901 4): no such element")
         raise Lenient("'-' addresses the last element in the library")
     if s == "0" or (s.isascii() and s.isdigit() and s[0] != "0" and len(s) <= 9):
         i = int(s)
         if i < n or (for_insert and i == n):
             return i
         raise PatchError("index out of range")
+    if "array-index" in OPEN_ON:
+        raise PatchError("array-index: %r is no rfc6901 array index" % s)
     raise Lenient("array index %r is not rfc6901 syntax; the library reads it with iwatoi" % s)
 
 
@@ -282,10 +286,12 @@ def apply_op(doc, op):
         if k not in ("op", "path", "from", "value"):
             raise Lenient("unknown member %r (the library decodes member names by prefix)" % k)
     name = op.get("op")
-    if not isinstance(name, str) or "path" not in op or not isinstance(op["path"], str):
-        if isinstance(name, str) and name not in RFC_OPS + EXT_OPS:
-            raise Lenient("operation name decoded by prefix")
-        raise PatchError("op/path missing")
+    if "op" not in op:
+        raise Lenient("no \"op\" member: the library applies the operation code 0 like add")
+    if "path" not in op:
+        raise Lenient("no \"path\" member: the library reads the root")
+    if not isinstance(name, str) or not isinstance(op["path"], str):
+        raise PatchError("op/path is not a string")
     if name not in RFC_OPS + EXT_OPS:
         raise Lenient("operation name %r (the library decodes names by prefix)" % name)
     if doc == ("NONE",):
@@ -361,8 +367,14 @@ def apply_op(doc, op):
         if isinstance(cur, tuple):
             parent[key] = f64(num(cur) + float(num(v)))
         else:
+            if isinstance(v, tuple) and not (-9223372036854775808.0 <= num(v) < 9223372036854775808.0):
+                if "increment-overflow" in OPEN_ON:
+                    raise PatchError("increment-overflow: the double operand is no int64")
+                raise Unspecified("double operand outside of int64")
             r = cur + (int(num(v)) if isinstance(v, tuple) else v)
             if not -(1 << 63) <= r < (1 << 63):
+                if "increment-overflow" in OPEN_ON:
+                    raise PatchError("increment-overflow: the sum is no int64")
                 raise Unspecified("signed overflow")
             parent[key] = r
         return doc
@@ -488,9 +500,14 @@ INT_DBL = {0: 0.0, 1: 1.0, 2: 2.0, -1: -1.0, -3: -3.0, 42: 42.0, 4294967296: 429
 
 # Input classes on which the unmodified library is known to contradict RFC 6902 (notes/jpatch.md, "Open findings").  They are
 # generated only when named in VERIF_JPATCH_OPEN (comma separated, or "all"); then the oracle reports them as violations.
-OPEN_CLASSES = ("f64-text-compare", "nul-in-string")
+OPEN_CLASSES = ("f64-text-compare", "nul-in-string", "increment-overflow", "array-index", "parent-pointers")
 _open_env = [x for x in os.environ.get("VERIF_JPATCH_OPEN", "").split(",") if x]
-OPEN_ON = set(OPEN_CLASSES)   # both defects are repaired in /repo (ef0c81e, e38ce78): the classes are generated on every run
+# f64-text-compare / nul-in-string are repaired in /repo (ef0c81e, e38ce78): generated on every run.  The others are findings of
+# the deepening round (notes/jpatch.md): increment-overflow (signed overflow in `increment`), array-index (array index segments
+# are read with iwatoi; "-" addresses the last element), parent-pointers (children taken over by _jbl_copy_node_data keep the
+# `parent` pointer of the node they came from) - reported only when named in VERIF_JPATCH_OPEN (or "all").
+OPEN_ON = set(["f64-text-compare", "nul-in-string"]) | (set(OPEN_CLASSES) if "all" in _open_env else
+                                                        set(x for x in _open_env if x in OPEN_CLASSES))
 DBL_NEAR_OPEN = [(0.5, 0.500000001), (1e-9, 2e-9), (0.0, 1e-9)]      # equal in "%.8Lf" text; and 0.0 / -0.0 differ in it
 STR_NEAR_OPEN = [("a\x00b", "a\x00c"), ("\x00a", "\x00b"),("x\x00yz", "x\x00zy")]   # same length, equal up to a 0 byte
 
@@ -1160,6 +1177,155 @@ def gen_unrep_case(rng):
     return doc, ops, what
 
 
+# ------------------------------------------------------------------------------------------------
+# the decoder (_jbl_create_patch / _jbl_patch_node): operation objects with members missing, renamed to prefixes, doubled, of the
+# wrong type; and pairs of calls in which the second patch lacks what the first one had (nothing of an earlier call - stack or
+# pool leftovers - may show in the decoded operation)
+DEC_DOC = {"a": 1, "b": {"c": [1, 2, 3], "d": "s"}, "arr": [10, 20, 30], "n": 5}
+DEC_OPS = [{"op": "add", "path": "/b/n", "value": 5}, {"op": "remove", "path": "/a"}, {"op": "replace", "path": "/b/d", "value": "t"},
+           {"op": "move", "from": "/a", "path": "/b/m"}, {"op": "copy", "from": "/b/c", "path": "/cc"},
+           {"op": "test", "path": "/a", "value": 1}, {"op": "swap", "from": "/a", "path": "/b/d"},
+           {"op": "increment", "path": "/n", "value": 2}, {"op": "add_create", "path": "/q/r/s", "value": [1]},
+           {"op": "add", "path": "/arr/1", "value": 15}, {"op": "move", "from": "/arr/0", "path": "/arr/-"}]
+KEY_PREFIX = {"op": ["o", ""], "path": ["p", "pa", "pat"], "value": ["v", "va", "valu"], "from": ["f", "fr", "fro"]}
+OP_PREFIX = ["", "a", "ad", "r", "re", "rem", "rep", "repl", "c", "co", "m", "mo", "t", "te", "i", "inc", "s", "sw", "add_", "add_c",
+             "ADD", "merge", "adds", "remove ", "x"]
+
+
+def gen_decoder_case(rng):
+    doc = clone(DEC_DOC)
+    nops = rng.range(1, 3)
+    prog, what = [], "plain"
+    hit = rng.below(nops)
+    for i in range(nops):
+        op = dict(rng.choice(DEC_OPS))
+        if i == hit:
+            r = rng.below(9)
+            if r == 0:
+                k = rng.choice(list(op.keys()))
+                del op[k]
+                what = "drop-" + k
+            elif r == 1:
+                k = rng.choice(list(op.keys()))
+                nk = rng.choice(KEY_PREFIX[k])
+                op = {(nk if kk == k else kk): v for kk, v in op.items()}
+                what = "keyprefix"
+            elif r == 2:
+                op["op"] = rng.choice(OP_PREFIX)
+                what = "opprefix"
+            elif r == 3:        # an unknown member that is a prefix of a known name, after the real one: it wins
+                k, v = rng.choice([("p", "/zz"), ("pa", "/b/zz"), ("v", 99), ("f", "/b"), ("o", "remove"), ("", "test"), ("fr", "/n")])
+                op[k] = v
+                what = "extra-prefix"
+            elif r == 4:        # an unknown member that is no prefix of anything: ignored (rfc6902 4)
+                op[rng.choice(["note", "x", "opp", "paths", "values", "from2", "Op"])] = rng.choice([1, "s", None, [1], {"op": "remove"}])
+                what = "extra-ignored"
+            elif r == 5:
+                k = rng.choice(["op", "path", "from"])
+                op[k] = rng.choice([5, None, ["x"], {"x": 1}, True, 1.5])
+                what = "nonstring-" + k
+            elif r == 6:
+                op = rng.choice([5, "add", None, [{"op": "remove", "path": "/a"}], True])
+                what = "nonobject"
+            elif r == 7:        # the real member first, then its prefix twin BEFORE it in the text: the later one decides
+                k = rng.choice(["path", "from", "value", "op"])
+                if k in op:
+                    nk = rng.choice(KEY_PREFIX[k])
+                    alt = {"path": "/zz", "from": "/b/d", "value": 77, "op": "test"}[k]
+                    op = dict([(nk, alt)] + list(op.items()))
+                    what = "prefix-first"
+            else:
+                what = "valid"
+        prog.append(op)
+    return doc, prog, "dec-" + what
+
+
+def gen_hist_pair(rng):
+    docA = {"a": {"x": 1, "y": [1, 2]}, "b": 2, "c": [5, 6, 7], "d": {"k": "v"}}
+    k = rng.range(1, 4)
+    withfrom = [{"op": "copy", "from": "/a/x", "path": "/e%d"}, {"op": "copy", "from": "/c/0", "path": "/a/y/-"},
+                {"op": "copy", "from": "/d", "path": "/f%d"}, {"op": "move", "from": "/b", "path": "/g%d"},
+                {"op": "swap", "from": "/a/x", "path": "/d/k"}, {"op": "copy", "from": "/c", "path": "/h%d"}]
+    A, B = [], []
+    for i in range(k):
+        o = dict(rng.choice(withfrom))
+        if "%d" in o["path"]:
+            o["path"] = o["path"] % i
+        if o["op"] == "move" and any(x["op"] == "move" for x in A):
+            o["op"] = "copy"
+        A.append(o)
+        r = rng.below(4)
+        if r == 0:
+            b = dict(o)
+            del b["from"]
+        elif r == 1:
+            b = {"op": rng.choice(["move", "copy", "swap"]), "path": "/zz%d" % i}
+        elif r == 2:
+            b = {"op": "add", "path": "/v%d" % i, "value": i}
+        else:
+            b = {"path": "/w%d" % i, "value": i}
+        B.append(b)
+    if all("from" in b for b in B if b.get("op") in ("move", "copy", "swap")) and rng.chance(2, 3):
+        B[rng.below(k)] = {"op": rng.choice(["move", "copy", "swap"]), "path": "/yy"}
+    return (docA, A), (clone(docA), B)
+
+
+SWAP_DOC = {"a": {"b": {"x": 1, "y": [1, 2]}, "k": 2}, "c": [1, {"q": [5, 6], "r": {"s": 0}}, 3], "e": "s"}
+
+
+def gen_swap_case(rng):
+    """swap of locations that contain one another, that are the same node under two spellings, whose target is missing below
+    `from`, into and out of arrays"""
+    doc = clone(SWAP_DOC)
+    pairs = [("/a", "/a/b"), ("/a/b", "/a"), ("/a", "/a/b/y/0"), ("/c/1/q/0", "/c"), ("/c", "/c/1/r/s"), ("/c/1", "/c/1/q"),
+             ("/c/01", "/c/1/q"), ("/c/1/q", "/c/01"), ("/c/-", "/c/2"), ("/c/2", "/c/02"), ("/c/1", "/c/1/q/-"),
+             ("/a", "/a/zz"), ("/a/b", "/a/b/zz/yy"), ("/a/k", "/a/k/z"), ("/c/0", "/c/3"), ("/c/0", "/c/4"), ("/c/0", "/c/-"),
+             ("/c/-", "/c/-"), ("/c/1/q", "/c/1/q/2"), ("/c/1/q", "/c/1/q/-"), ("/a/b", "/c/1"), ("/e", "/a/b/x"), ("/e", "/c/0"),
+             ("/a/b/y", "/c/1/q"), ("/a/b/y/0", "/a/b/y/1"), ("/a", "/a"), ("/zz", "/a"), ("/a", "/zz/yy"), ("/c/1/r", "/c/1/r/s/t"),
+             ("/c/1", "/c/1/r/new"), ("/a/b/y/1", "/a/b/y/-"), ("/c/2", "/a/b/y/2"), ("/a", "/e/x")]
+    prog = []
+    if rng.chance(1, 3):
+        prog.append(rng.choice([{"op": "add", "path": "/c/0", "value": {"n": 1}}, {"op": "remove", "path": "/c/0"},
+                                {"op": "add", "path": "/a/b/y/-", "value": 3}]))
+    f, p = rng.choice(pairs)
+    prog.append({"op": "swap", "from": f, "path": p})
+    if rng.chance(1, 2):
+        prog.append(rng.choice([{"op": "test", "path": "/e", "value": "s"}, {"op": "add", "path": "/z", "value": 1},
+                                {"op": "swap", "from": "/e", "path": "/a"}, {"op": "remove", "path": "/c/0"}]))
+    return doc, prog
+
+
+def gen_move_shift_case(rng):
+    """move / copy between items of one array whose removal or insertion shifts the target's parent (rfc6902 4.4: remove, then
+    add): the parent must be resolved AFTER the source is taken out"""
+    n = rng.range(3, 5)
+    arr = [{"id": i, "l": [i, i + 10]} for i in range(n)]
+    doc = {"arr": arr, "o": {"p": 1}} if rng.chance(2, 3) else arr
+    pre = "/arr" if isinstance(doc, dict) else ""
+    i, j = rng.below(n), rng.below(n)
+    kind = rng.choice(["move", "move", "move", "copy"])
+    tail = rng.choice(["/first", "/l/-", "/l/0", "/id", "/l/2", "/new/x"])
+    prog = [{"op": kind, "from": "%s/%d" % (pre, i), "path": "%s/%d%s" % (pre, j, tail)}]
+    r = rng.below(4)
+    if r == 0:
+        prog.append({"op": "move", "from": "%s/%d/l/0" % (pre, rng.below(n - 1)), "path": "%s/0/m" % pre})
+    elif r == 1:
+        prog.insert(0, {"op": "add", "path": "%s/0" % pre, "value": {"id": -1, "l": []}})
+    elif r == 2:
+        prog.append({"op": "test", "path": "%s/0/id" % pre, "value": rng.choice([0, 1])})
+    return doc, prog
+
+
+def gen_inc_overflow_case(rng):
+    big = rng.choice([9223372036854775807, 9223372036854775806, 9223372036854775000, -9223372036854775808, -9223372036854775807])
+    doc = {"n": big, "arr": [1, big], "d": 1.5}
+    v = rng.choice([1, 2, 808, 9223372036854775807, 1e300, 1e19]) if big > 0 else rng.choice([-1, -2, -9223372036854775807, -1e300, -1e19])
+    prog = [{"op": "increment", "path": rng.choice(["/n", "/arr/1"]), "value": v}]
+    if rng.chance(1, 2):
+        prog.insert(0, {"op": "increment", "path": "/d", "value": 2})
+    return doc, prog
+
+
 def open_class(*texts):
     """the open-finding class (OPEN_CLASSES) a case falls into, judged from its JSON texts; None = none"""
     t = " ".join(texts)
@@ -1274,6 +1440,28 @@ def check(run):
     for _ in range(N // 2):
         doc, prog, what = gen_unrep_case(rng)
         cases.append((gen_json(doc), gen_json(prog), doc, prog, "wb-" + what))
+    # the decoder as a grammar: members missing / renamed to prefixes / doubled / of the wrong type
+    for _ in range(N // 3):
+        doc, prog, what = gen_decoder_case(rng)
+        cases.append((gen_json(doc), gen_json(prog), doc, prog, what))
+    # swap of nested / identical / missing locations; move and copy inside one array (parent resolved after the removal)
+    for _ in range(N // 4):
+        doc, prog = gen_swap_case(rng)
+        cases.append((gen_json(doc), gen_json(prog), doc, prog, "swap"))
+    for _ in range(N // 4):
+        doc, prog = gen_move_shift_case(rng)
+        cases.append((gen_json(doc), gen_json(prog), doc, prog, "move-shift"))
+    if "increment-overflow" in OPEN_ON:
+        for _ in range(N // 8):
+            doc, prog = gen_inc_overflow_case(rng)
+            cases.append((gen_json(doc), gen_json(prog), doc, prog, "inc-overflow"))
+    # pairs of calls (same mode, one after the other): the second patch lacks members the first one had
+    groups = [[ci] for ci in range(len(cases))]
+    for _ in range(N // 6):
+        (da, pa), (db, pb) = gen_hist_pair(rng)
+        cases.append((gen_json(da), gen_json(pa), da, pa, "hist-a"))
+        cases.append((gen_json(db), gen_json(pb), db, pb, "hist-b"))
+        groups.append([len(cases) - 2, len(cases) - 1])
     # the same equality asked directly (jbn_compare_nodes == 0, both argument orders)
     pairs = []
     for _ in range(N * 2):
@@ -1281,16 +1469,22 @@ def check(run):
         b, kind = eq_pair(rng, a)
         if admit(gen_json(a), gen_json(b)):
             pairs.append((gen_json(a), gen_json(b), a, b, kind))
-    lines, meta = [], []
-    for ci, (dt, pt, doc, prog, origin) in enumerate(cases):
-        for m in MODES:
-            lines.append("patch %s %s %s" % (m, hx(dt), hx(pt)))
-            meta.append((ci, m))
+    lines, meta, line_of = [], [], {}
+    for g in groups:
+        if len(g) == 1:
+            order = [(ci, mi) for ci in g for mi in range(len(MODES))]
+        else:       # the calls of a pair follow one another in the same mode
+            order = [(ci, mi) for mi in range(len(MODES)) for ci in g]
+        for ci, mi in order:
+            line_of[(ci, mi)] = len(lines)
+            lines.append("patch %s %s %s" % (MODES[mi], hx(cases[ci][0]), hx(cases[ci][1])))
+            meta.append((ci, MODES[mi]))
     npatch = len(lines)
     for pi, (at, bt, a, b, kind) in enumerate(pairs):
         lines.append("cmp %s %s" % (hx(at), hx(bt)))
         meta.append((pi, "cmp"))
-    out_i, crashes = run_robust(impl, lines)
+    impl_env = dict(os.environ, H_JPATCH_PAR="1") if "parent-pointers" in OPEN_ON else None
+    out_i, crashes = run_robust(impl, lines, env=impl_env)
     rc2, out_m, err2 = vlib.run_lines(model, "\n".join(lines) + "\n", timeout=600)
     if rc2 != 0 or len(out_m) < len(lines):
         run.broken.append("T2 model driver failed: rc=%d %s" % (rc2, err2[-300:]))
@@ -1336,17 +1530,21 @@ def check(run):
             if isinstance(o, dict):
                 run.dist("op:" + str(o.get("op", "?")))
         run.case(dt + "|" + pt, nontrivial=True,
-                 sample=({"doc": dt, "patch": pt, "oracle": kind, "impl": out_i[4 * ci] if 4 * ci < len(out_i) else None}
+                 sample=({"doc": dt, "patch": pt, "oracle": kind, "impl": out_i[line_of[(ci, 0)]] if line_of[(ci, 0)] < len(out_i) else None}
                          if ci % max(1, len(cases) // 5) == 0 else None))
         orig = from_py(doc)
         for mi, m in enumerate(MODES):
-            i = 4 * ci + mi
+            i = line_of[(ci, mi)]
             if i >= len(out_i) or out_i[i] == "SKIPPED":
                 continue
             o = out_i[i]
             rep = {"kind": "patch", "mode": m, "doc": dt, "patch": pt, "impl": o, "oracle": kind}
             if open_class(dt, pt):
                 rep["class"] = open_class(dt, pt)
+            if kind == "err" and isinstance(exp, str) and exp.split(":")[0] in OPEN_CLASSES:
+                rep["class"] = exp.split(":")[0]
+            if " par=bad" in o:
+                rep["class"] = "parent-pointers"
 
             def viol(why):
                 nonlocal nviol
@@ -1382,6 +1580,10 @@ def check(run):
             if "doc" not in f:      # the harness' own exact decoding of the patch document rejected it; no API call was made
                 if kind == "ok":
                     viol("RFC 6902 applies this patch, decoding reports %s: doc %s patch %s" % (f["rc"], dt, pt))
+                continue
+            if f.get("par") == "bad":
+                viol("after the patch a child's `parent` pointer is not the node that lists it (taken over by _jbl_copy_node_data "
+                     "from a node of the patch document): doc %s patch %s" % (dt, pt))
                 continue
             if f.get("links") == "bad" and kind in ("ok", "err"):
                 viol("sibling links of the tree are inconsistent after the patch: doc %s patch %s" % (dt, pt))
@@ -1437,6 +1639,10 @@ def check(run):
                            "twins, 256-1000 bytes; first/middle/last member, nested objects that are not the last member, below "
                            "arrays; via add/copy/move/add_create/literal values; after earlier successful operations and followed by "
                            "more) and their storable near misses (255 bytes, other length, non-ASCII case, twin removed again); "
+                           "plus (origin:dec-*) operation objects with members missing / renamed to prefixes / doubled / of the wrong "
+                           "type / not objects, (origin:hist-a|b) pairs of consecutive calls in one mode whose second patch lacks "
+                           "`from` / `op` / `value` where the first had them, (origin:swap) swap of nested, identical (two spellings) "
+                           "and missing locations, (origin:move-shift) move / copy between items of one array; "
                            "a case is one pair; distinct = distinct (document, patch) text",
                       assumptions=["oracle domain: patches the RFC applies or rejects; inputs the library reads more leniently than the "
                                    "RFC (iwatoi indices, '-' as last element, '/' as root, names by prefix) are only compared with the model "
@@ -1466,14 +1672,18 @@ def replay(run, path):
         line = "patch %s %s %s" % (r["mode"], hx(r["doc"]), hx(r["patch"]))
     elif r.get("kind") == "mpath":
         line = "mpath %s %s %s %s" % (r["mode"], hx(r["doc"]), hx(r["path"]), hx(r["val"]) if r.get("val") is not None else "-")
+    elif r.get("kind") == "regs":
+        line = "regs %s %s" % (hx(r["doc"]), hx(r["steps"]))
     elif r.get("kind") == "reg":
         line = "reg %s %s %s %s" % (r["mode"][1], hx(r["doc"]), hx(r["path"]), hx(r["val"]) if r.get("val") is not None else "-")
     else:
         line = "merge %s %s %s" % (r["mode"], hx(r["doc"]), hx(r["patch"]))
-    env = dict(os.environ, ASAN_OPTIONS="detect_leaks=1", LSAN_OPTIONS="exitcode=0")
+    env = dict(os.environ, ASAN_OPTIONS="detect_leaks=1", LSAN_OPTIONS="exitcode=0", H_JPATCH_PAR="1" if " par=bad" in r.get("impl", "") else "")
+    if not env["H_JPATCH_PAR"]:
+        del env["H_JPATCH_PAR"]
     out, crashes = run_robust(impl, [line], env=env)
     print("doc   :", r["doc"])
-    print("patch :", r.get("patch", r.get("path")))
+    print("patch :", r.get("patch", r.get("path", r.get("steps"))))
     print("mode  :", r["mode"], "(see harness/h_jpatch.c)")
     print("impl  :", out[0][:600])
     print("recorded:", r.get("impl", "")[:600])
